@@ -66,3 +66,92 @@ pub fn c12(tier: &str) -> ! {
     rep.assume("the physical layout reference (fragment boundaries) is recomputed by the harness from the documented format and cross-checked against the file length");
     rep.finish()
 }
+
+pub fn c13(tier: &str) -> ! {
+    let mut rep = Report::new("C13", tier, "exploration");
+    let t = tier == "thorough";
+    let cases = Arc::new(if t { table_cases(4, &[1, 16, 64, 256, 1 << 20], 2) } else { table_cases(3, &[1, 16, 64, 256, 1 << 20], 1) });
+    let cursor_len = if t { 3 } else { 2 };
+    let shm = Arc::new(Shm::new(1 << 10, 16 << 20));
+    let (shm2, cases2) = (Arc::clone(&shm), Arc::clone(&cases));
+    let chunk = 50usize;
+    let n_jobs = (cases.len() + chunk - 1) / chunk;
+    let total = cases.len();
+    let (capped, machinery) = pool(n_jobs, workers(), &shm, Some(Instant::now() + budget(tier, 45, 2400)), move |j| {
+        for i in (j * chunk)..((j + 1) * chunk).min(total) {
+            table_case(&cases2[i], &shm2, false, cursor_len);
+        }
+    });
+    for m in machinery {
+        rep.machinery.push(m);
+    }
+    if shm.get(C_MACHINERY) > 0 {
+        rep.machinery.push(format!("{} jobs died", shm.get(C_MACHINERY)));
+    }
+    collect(&mut rep, &shm, "table");
+    rep.cov("evaluations", json!(shm.get(C_CASES)));
+    rep.cov("distinct_nontrivial", json!(shm.get(C_NONTRIVIAL)));
+    rep.cov("exhaustive", json!(!capped));
+    rep.cov("point_probes", json!(shm.get(C_USER)));
+    rep.cov("cursor_steps_checked", json!(shm.get(C_USER + 1)));
+    rep.cov("max_blocks_in_a_table", json!(shm.get(C_MAX_FILE_ENTRIES)));
+    rep.cov("rule", json!("one evaluation = one table file built with the real TableBuilder from a sorted entry set (every subset of <= 3 (thorough 4) of 8 boundary user keys {'', 00, a, a00, ab, b, ff, ffff}, each key with one of 5 version patterns of puts/deletes, value sizes from {0,1,100,5000}, max_block_size in {1,16,64,256,1 MiB}) and read with the real Table: forward and backward iteration equal the entries; for every probe (17 keys incl. separators x every sequence bound 0..n+2 and MAX) seek lands on the first entry not less than the target and get answers Value / Deleted / NotInFile like the vector model; every cursor program of length <= 2 (thorough 3) over {first,last,next,prev,seek(entry)} follows the model cursor. distinct_nontrivial = tables with more than one data block or more than 3 entries"));
+    for c in cases.iter().step_by((cases.len() / 3).max(1)).take(3) {
+        rep.cov_push("samples", table_case_json(c));
+    }
+    rep.assume("bounded-exhaustive over the stated entry sets; not a statement about all sorted runs");
+    rep.finish()
+}
+
+pub fn c14(tier: &str) -> ! {
+    let mut rep = Report::new("C14", tier, "exploration");
+    let t = tier == "thorough";
+    let shm = Arc::new(Shm::new(1 << 10, 16 << 20));
+    // (i) the public policy: one job per bits_per_key
+    let shm2 = Arc::clone(&shm);
+    let max_set = if t { 3 } else { 2 };
+    let big: Vec<usize> = if t { vec![10, 100, 1000, 5000] } else { vec![10, 100, 1000] };
+    let (capped1, machinery) = pool(64, workers(), &shm, Some(Instant::now() + budget(tier, 30, 1800)), move |j| bloom_job(j + 1, &shm2, max_set, &big));
+    for m in machinery {
+        rep.machinery.push(m);
+    }
+    // (ii) table level: the C13 tables plus the filter-specific ones
+    let mut cases = if t { table_cases(3, &[1, 16, 64, 256, 1 << 20], 1) } else { table_cases(2, &[1, 16, 256, 1 << 20], 1) };
+    cases.extend(filter_table_cases());
+    let cases = Arc::new(cases);
+    shm.counter(C_NEXT_TASK).store(0, std::sync::atomic::Ordering::SeqCst);
+    shm.counter(C_TASKS_DONE).store(0, std::sync::atomic::Ordering::SeqCst);
+    let bloom_cases = shm.get(C_CASES);
+    let (shm3, cases3) = (Arc::clone(&shm), Arc::clone(&cases));
+    let chunk = 50usize;
+    let n_jobs = (cases.len() + chunk - 1) / chunk;
+    let total = cases.len();
+    let (capped2, machinery) = pool(n_jobs, workers(), &shm, Some(Instant::now() + budget(tier, 20, 1200)), move |j| {
+        for i in (j * chunk)..((j + 1) * chunk).min(total) {
+            table_case(&cases3[i], &shm3, true, 0);
+        }
+    });
+    for m in machinery {
+        rep.machinery.push(m);
+    }
+    if shm.get(C_MACHINERY) > 0 {
+        rep.machinery.push(format!("{} jobs died", shm.get(C_MACHINERY)));
+    }
+    collect(&mut rep, &shm, "filter");
+    // only C14 clauses are verdicts here
+    rep.findings.retain(|f| f.clause.starts_with("C14."));
+    rep.cov("evaluations", json!(shm.get(C_CASES)));
+    rep.cov("distinct_nontrivial", json!(shm.get(C_NONTRIVIAL)));
+    rep.cov("exhaustive", json!(!capped1 && !capped2));
+    rep.cov("bloom_filters_created", json!(bloom_cases));
+    rep.cov("bloom_membership_checks", json!(shm.get(C_USER + 3)));
+    rep.cov("tables_checked", json!(cases.len()));
+    rep.cov("block_filter_checks", json!(shm.get(C_USER + 2)));
+    rep.cov("rule", json!("(i) one evaluation = one filter created by the public BloomFilterPolicy for a key multiset (all multisets of size 0..2 (thorough 3) over the 40 byte strings of length 0..3 over {00,61,ff}; generated sets of 10/100/1000(/5000) keys with and without duplicates) for each bits_per_key 1..=64; every member must answer Ok(true). (ii) one evaluation = one table (C13's sets plus tables with 3000-byte values and 1-byte .. 1 MiB blocks): for every data block and every user key stored in it the filter block consulted with the block's offset answers 'may match', and get finds every stored (key, seq). distinct_nontrivial = filters over >= 2 keys plus tables with > 1 block or > 3 entries"));
+    rep.cov_push("samples", json!({"bloom": {"bits_per_key": 10, "set": ["\"\"", "\\x00", "a\\xff"]}}));
+    for c in cases.iter().rev().take(2) {
+        rep.cov_push("samples", table_case_json(c));
+    }
+    rep.assume("bounded-exhaustive statement over the enumerated key sets and table layouts, not a proof for all key sets");
+    rep.finish()
+}
